@@ -241,6 +241,25 @@ impl Check for C13 {
     }
     fn run_case(&self, _tier: Tier, seed: u64, case: u64) -> CaseReport {
         let mut rep = CaseReport::new(case);
+        if case == 0 {
+            // pinned reproducer (open finding): a link inside a table cell has a source span like any other link
+            let mut lib: BTreeMap<String, String> = BTreeMap::new();
+            lib.insert("n1".into(), "# one\n\n| name | note |\n|------|------|\n| two  | [two](t2) |\n\nsee [two](t2)\n".into());
+            lib.insert("t2".into(), "# two\n".into());
+            lsp::reset_log();
+            let mut s = Server::start_mem(&lib, "");
+            let uri = s.uri("n1");
+            let ask = |s: &mut Server, line: u64, ch: u64| s.request("textDocument/definition", json!({"textDocument": {"uri": uri}, "position": {"line": line, "character": ch}}));
+            let in_cell = ask(&mut s, 4, 10);
+            let in_para = ask(&mut s, 6, 6);
+            rep.count("events", 2);
+            rep.count("pinned_reproducers", 1);
+            let found = |o: &lsp::Outcome| matches!(o, lsp::Outcome::Result(v) if !v.is_null() && v.to_string().contains("t2.md"));
+            if found(&in_para) && !found(&in_cell) {
+                rep.violate("definition-miss-inside-link", "pinned:link-in-table-cell", format!("definition inside `[two](t2)` in a table cell: {:?}; the same link in a paragraph is found", in_cell), json!({"library": lib}));
+            }
+            let _ = s.shutdown();
+        }
         let mut rng = Rng::for_case(seed, "c13", case);
         let crlf = case % 4 == 1 || case % 4 == 3;
         let wide = case % 4 >= 2;
